@@ -9,6 +9,7 @@
 #include <unistd.h>
 #include <sys/wait.h>
 #include <cstring>
+#include <cstdlib>
 #include <sstream>
 #include <algorithm>
 
@@ -195,6 +196,15 @@ struct Gen {
       for (int i = 0; i < k; ++i) { Step s = hot[rng.below(nhot)]; s.op.thread = T_MAIN; plan.steps.push_back(s); }
     }
     // per-thread programs, interleaved in the plan in round-robin order (plan order = reference order)
+    std::vector<std::pair<int, int> > focus;
+    {
+      int nf = 1 + (int)rng.below(3);
+      for (int i = 0; i < nf; ++i) {
+        int g = (int)rng.below(ngr);
+        std::vector<int> all = const_ops(vts[g], false);
+        focus.push_back(std::make_pair(g, all[rng.below((uint32_t)all.size())]));
+      }
+    }
     std::vector<std::vector<Step> > prog(nthreads);
     const bool same_order = rng.chance(0.5);   // every thread walks the hot constants in the same order: maximal overlap of first-use windows
     for (int t = 0; t < nthreads; ++t) {
@@ -202,6 +212,14 @@ struct Gen {
       if (!same_order) for (int i = (int)hs.size() - 1; i > 0; --i) std::swap(hs[i], hs[rng.below(i + 1)]);
       int take = rng.chance(0.8) ? (int)hs.size() : (int)rng.below((uint32_t)hs.size() + 1);
       for (int i = 0; i < take; ++i) { hs[i].op.thread = (uint8_t)t; prog[t].push_back(hs[i]); }
+      // focus operations: every thread executes the same (group, operation) once, each with its own operands
+      // and storage kinds, so that state private to ONE operation (a scratch static, a memo) is hit by several
+      // threads in the same run whichever operation it hides in
+      for (size_t f = 0; f < focus.size(); ++f) {
+        std::vector<int> one(1, focus[f].second);
+        Step fs = random_op(focus[f].first, t, one);
+        prog[t].insert(prog[t].begin() + rng.below((uint32_t)prog[t].size() + 1), fs);
+      }
       int extra = (int)rng.below(thorough ? 24 : 12);
       for (int i = 0; i < extra; ++i) {
         int g = (int)rng.below(ngr);
@@ -334,6 +352,7 @@ void run_c14(const RunOpts& o, Result& res) {
     if (late > 0) vs_set_initial_stall(t, (int)late);
   }
   if (plan.has_schedule) vs_sim_replay(plan.schedule.data(), (int)plan.schedule.size());
+  if (getenv("VS_WATCHDOG_MS")) vs_set_watchdog_ms(std::atol(getenv("VS_WATCHDOG_MS")), getenv("VS_FREERUN_MS") ? std::atol(getenv("VS_FREERUN_MS")) : 3000);
   g_sh.plan = &plan; g_sh.ctx = &ctx; g_sh.results = &results;
   std::vector<pthread_t> th((size_t)nthreads);
   std::vector<ThreadArg> targ((size_t)nthreads);
@@ -383,9 +402,10 @@ void run_c14(const RunOpts& o, Result& res) {
 
   if (rc != 0) {
     // threads are parked for good: report and leave without joining
-    res.fail(rc == 1 ? "deadlock" : "progress", rc == 1 ? "deadlock" : "progress",
+    res.fail(rc == 1 ? "deadlock" : rc == 3 ? "stuck" : "progress", rc == 1 ? "deadlock" : rc == 3 ? "stuck" : "progress",
              rc == 1 ? "all remaining simulated threads are blocked on initialisation guards / locks owned by blocked threads"
-                     : "run did not finish within " + std::to_string(budget) + " scheduler decisions", vs_steps());
+             : rc == 3 ? "a thread never reached its next scheduling point, and the run did not finish even when every thread was left running freely (spin wait / livelock)"
+                       : "run did not finish within " + std::to_string(budget) + " scheduler decisions", vs_steps());
     dump_events(); record();
     res.str["flavour"] = flavour_name();
     res.str["seed"] = std::to_string(plan.seed);
